@@ -69,9 +69,12 @@ func mkHistoryLines(g *mkGen, rnd *rand.Rand, n int, runnerSafe bool) []string {
 		switch r := rnd.Intn(15); {
 		case r == 14:
 			// the same property written with the same characters and another type, or with another spelling of
-			// the same value: what one line's marker carried says nothing about the next line's
-			line = []string{"[pause=2/]", "[pause=2.0/]", `[pause="2"/]`, "[a p=true/]", `[a p="true"/]`, "[a p=1/]", "[a p=1.0/]", "[a p=TRUE/]",
-				`[pause=2 q="x"/]`, "[pause=2 q=x/]", "[pause=02/]"}[rnd.Intn(11)] + []string{" wait", "", " [b]x[/b]"}[rnd.Intn(3)]
+			// the same value - both lines join the set: what one line's marker carried says nothing about the next line's
+			pair := [][2]string{{"[pause=2/]", "[pause=2.0/]"}, {"[pause=2/]", `[pause="2"/]`}, {"[a p=true/]", `[a p="true"/]`}, {"[a p=1/]", "[a p=1.0/]"},
+				{`[pause=2 q="x"/]`, "[pause=2 q=x/]"}, {"[a p=TRUE/]", "[a p=true/]"}, {"[pause=02/]", "[pause=2/]"}}[rnd.Intn(7)]
+			tail := []string{" wait", "", " [b]x[/b]"}[rnd.Intn(3)]
+			res = append(res, pair[0]+tail, pair[1]+tail)
+			continue
 		case r >= 12:
 			// markers whose contents are read as raw text up to their close marker, of every
 			// name (what the parser keeps from one such marker must not reach the next one)
